@@ -43,7 +43,8 @@ CLAIMED = {
 }
 
 # properties whose fragment-described check has been integrated and verified by me
-ENABLED = set()
+_en = os.path.join(VERIF, "checks", "ENABLED.txt")
+ENABLED = set(open(_en).read().split()) if os.path.exists(_en) else set()
 
 NOT_YET = "check not built yet in this session (work in progress; see DESIGN.md section 6)"
 
